@@ -189,7 +189,7 @@ def _map(V, kp):
 
 
 for _kp in POLICIES:
-    ob('map/keys-' + _kp, marks=['offender', 'clean'], budget=(90, 300),
+    ob('map/keys-' + _kp, marks=['offender', 'clean'], budget=(90, 900),
        bounds='Dict[IntGe, IntGe] with n <= 2 (3 thorough) entries, keys picked from {3,-3,"x","5"} (thorough: also 0, 1), '
               'values solver int -4..4 | "x" | "5"; invalid_keys=%s, invalid_values policy solver-picked' % _kp,
        out='nested mappings')((lambda kp: lambda V: _map(V, kp))(_kp))
@@ -410,7 +410,7 @@ def var_args(V):
 
 
 # ------------------------------------------------------------------ nested containers
-@ob('nested/list-of-list', marks=['offender', 'clean'], budget=(150, 400),
+@ob('nested/list-of-list', marks=['offender', 'clean'], budget=(150, 900),
     bounds='List[List[IntGe]] with <= 2 inner lists of <= 2 elements; the policy applies at both levels: an inner list '
            'is an offender only under throw', out='deeper nesting')
 def nested(V):
